@@ -51,7 +51,7 @@ func loopCounter(l *Loop, tm *Termer) (bound *Term, phi *ssa.Phi, ok bool) {
 
 // C20 — experiment protocol.
 func C20(p *Prog, r *Run) {
-	r.Explanation = "Decided on Experiment.Execute by flag-sensitive path search over its SSA control-flow graph (two loops; the observer's nil-ness is tracked along each path): per trial iteration exactly one NewPopulation(start genome, options) before the generation loop, TrialRunStarted exactly once before the first generation, the trial recorded exactly once at e.Trials[run] on every non-error path, TrialRunFinished exactly once on every non-error path and never followed by EpochEvaluated; per generation iteration the context test precedes the evaluation, exactly one GenerationEvaluate whose error returns at once, NextEpoch only under !Solved, at most once, its error returned, append-then-EpochEvaluated exactly once in that order, under Solved the iteration leaves the loop; counters run 0,1,… below NumRuns / NumGenerations, tested in the effect-free loop condition (any spelling of the test; the loop condition may additionally test a flag that is raised only under generation.Solved, nothing else), a break out of the generation loop only under Solved; the record handed to the evaluator is allocated or reset in every generation so that its Solved flag is false at the call; every notification is delivered to the observer parameter whenever it is non-nil and, when it is nil, is either not executed or addressed to a substitute whose method body is empty (decided per value that can be the receiver, on the edge that selects it); the errors of GenerationEvaluate / NextEpoch are the value returned on every path after the failing call (phis resolved along the path); the executor selection covers every EpochExecutorType constant and errors when all type tests fail (decided per way the operands of each return can be chosen). Assumption: the observer and NextEpoch do not flip generation.Solved between its two reads. Not decided: what the evaluator, observer and executor do."
+	r.Explanation = "Decided on Experiment.Execute by flag-sensitive path search over its SSA control-flow graph (two loops; the observer's nil-ness is tracked along each path): per trial iteration exactly one NewPopulation(start genome, options) before the generation loop, TrialRunStarted exactly once before the first generation, the trial recorded exactly once at e.Trials[run] on every non-error path, TrialRunFinished exactly once on every non-error path and never followed by EpochEvaluated; per generation iteration the context test precedes the evaluation and, on every path after it on which the Done channel was ready, Execute returns Err() of that same context (read after the test) before any further event of the protocol (phis, result variables and result slots resolved along the path), exactly one GenerationEvaluate whose error returns at once, NextEpoch only under !Solved, at most once, its error returned, append-then-EpochEvaluated exactly once in that order, under Solved the iteration leaves the loop; counters run 0,1,… below NumRuns / NumGenerations, tested in the effect-free loop condition (any spelling of the test; the loop condition may additionally test a flag that is raised only under generation.Solved, nothing else), a break out of the generation loop only under Solved; the record handed to the evaluator is allocated or reset in every generation so that its Solved flag is false at the call; every notification is delivered to the observer parameter whenever it is non-nil and, when it is nil, is either not executed or addressed to a substitute whose method body is empty (decided per value that can be the receiver, on the edge that selects it); the errors of GenerationEvaluate / NextEpoch are the value returned on every path after the failing call (phis resolved along the path); the executor selection covers every EpochExecutorType constant and errors when all type tests fail (decided per way the operands of each return can be chosen). Assumption: the observer and NextEpoch do not flip generation.Solved between its two reads. Not decided: what the evaluator, observer and executor do."
 	ex := p.Func(PkgE, "Experiment.Execute")
 	r.Fn(FuncName(ex))
 	tm := NewTermer(ex)
@@ -209,12 +209,26 @@ func C20(p *Prog, r *Run) {
 			fromBody[b] = true
 			stack = append(stack, b.Succs...)
 		}
+		// the value a Return delivers is resolved along each path that leaves the loop body (a single `return r` over a
+		// result variable - the form an inlined helper takes - returns nil on the paths on which r was set to nil)
+		nilRet := map[*ssa.Return]bool{}
+		for _, e := range cOuter.BodyExits() {
+			(&c20RetWalk{P: p}).Run(e[1], e[0], 0, func(ret *ssa.Return, got ssa.Value) string {
+				if got != nil && c20IsNilConst(got) {
+					nilRet[ret] = true
+				}
+				return ""
+			})
+		}
 		for _, b := range ex.Blocks {
 			ret, ok := b.Instrs[len(b.Instrs)-1].(*ssa.Return)
 			if !ok || !fromBody[b] {
 				continue
 			}
 			rt := tm.Of(ret.Results[0])
+			if nilRet[ret] {
+				rt = &Term{Op: "nil"}
+			}
 			r.Check(rt.Op != "nil", "trial.returns-inside-loop", p.Pos(ret.Pos()), "a return inside the trial loop carries an error: "+rt.String(), "Execute returns nil from inside the trial loop: the remaining trials are silently skipped")
 		}
 		exactlyOnce(outer, "NewPopulation", isNewPop, false, "trial.NewPopulation")
@@ -407,6 +421,10 @@ func C20(p *Prog, r *Run) {
 			r.Check(established && why == "", "generation.record.fresh", p.Pos(s.Pos()), "the evaluator receives a record whose Solved flag is false: allocated or reset in every generation before the call",
 				"the generation record handed to the evaluator is not fresh in every generation: "+why+"; Solved (and winner data) left from an earlier generation or trial ends later trials after their first generation")
 		}
+		// the events of the protocol
+		anyEvent := func(in ssa.Instruction) bool {
+			return ge(in) || ne(in) || ee(in) || isAppendGen(in) || isTrialStore(in) || isInvoke("TrialRunFinished")(in) || isInvoke("TrialRunStarted")(in)
+		}
 		// context test precedes the evaluation
 		sel := findAll(isSelect)
 		if len(sel) == 0 {
@@ -424,21 +442,16 @@ func C20(p *Prog, r *Run) {
 			sl := s.(*ssa.Select)
 			okShape := !sl.Blocking && len(sl.States) == 1 && sl.States[0].Dir == types.RecvOnly && strings.HasSuffix(tm.Of(sl.States[0].Chan).String(), "iface.Done(p1)")
 			r.Check(okShape, "generation.ctx.shape", p.Pos(s.Pos()), "non-blocking receive from ctx.Done()", "the cancellation test is not a non-blocking receive from ctx.Done()")
-			// the ready branch returns ctx.Err()
-			found := false
-			for _, b := range ex.Blocks {
-				if ret, ok := b.Instrs[len(b.Instrs)-1].(*ssa.Return); ok {
-					if strings.HasPrefix(tm.Of(ret.Results[0]).String(), "iface.Err(p1") {
-						found = true
-					}
-				}
+			// the ready branch returns ctx.Err(): decided on every path after the select on which its receive case was ready
+			// (the test may sit in an inlined helper that hands `canceled, cause` back, the return may go through a result
+			// variable), and nothing of the protocol happens on the way
+			okRet, whyRet := c20CancelReturns(p, tm, sl, anyEvent)
+			if whyRet != "" {
+				whyRet = ": " + whyRet
 			}
-			r.Check(found, "generation.ctx.returns-err", p.Pos(s.Pos()), "cancellation returns ctx.Err()", "a cancelled context does not make Execute return ctx.Err()")
+			r.Check(okRet, "generation.ctx.returns-err", p.Pos(s.Pos()), "cancellation returns ctx.Err() at once", "a cancelled context does not make Execute return ctx.Err()"+whyRet)
 		}
 		// errors return immediately: from the call, on the path where its error is non-nil, no further event is reachable
-		anyEvent := func(in ssa.Instruction) bool {
-			return ge(in) || ne(in) || ee(in) || isAppendGen(in) || isTrialStore(in) || isInvoke("TrialRunFinished")(in) || isInvoke("TrialRunStarted")(in)
-		}
 		for _, kind := range []struct {
 			name string
 			pred func(ssa.Instruction) bool
